@@ -1,6 +1,7 @@
 mod asm;
 mod gen_asm;
 mod gen_cmd;
+mod gen_files;
 mod gen_isa;
 mod gen_run;
 mod prog;
@@ -22,6 +23,7 @@ fn main() {
         ("replay", "asm") => gen_asm::replay(&args),
         ("gen", "run") => gen_run::main(&args),
         ("gen", "cmd") => gen_cmd::main(&args),
+        ("gen", "files") => gen_files::main(&args),
         (a, b) => {
             eprintln!("unknown command {a} {b}");
             std::process::exit(2);
